@@ -330,6 +330,7 @@ Proof.
         eexists. split; [apply nth_error_set_nth_eq; rewrite app_length; cbn; lia|]. cbn.
         rewrite get_conn_app_new. reflexivity.
       * rewrite (do_step_none _ _ E), Hc. apply da_conns_app.
+  - reflexivity.
 Qed.
 
 (* ---- clause 9 on model traces --------------------------------------------------------------------- *)
@@ -419,4 +420,18 @@ Proof.
   apply lim_err_iff in Ln. destruct Ln as [Hd [Ho Hpc]].
   destruct (F2 i t' Ht' Hd Ho) as [t [Ht [Hd0 [Ho0 Hp0]]]]; [unfold flaggedb; rewrite Hpc; reflexivity|].
   exists (call_of s t). split; [rewrite nth_error_map, Ht; reflexivity|]. apply lim_err_iff. auto.
+Qed.
+
+(* ---- clause 11: nobody waits while a usable non-limited connection is listed -------------------- *)
+Lemma clause11_holds : forall da s, reachable da s -> quiescent s -> pending s = [] ->
+  no_waiter_with_direct (obs_of s) = true.
+Proof.
+  intros da s R Q P. unfold no_waiter_with_direct. destruct (has_direct (o_conns (obs_of s))) eqn:H; [|reflexivity].
+  cbn [negb orb]. unfold has_direct in H. cbn [obs_of o_conns o_calls] in *.
+  apply existsb_exists in H. destruct H as [k [Hk Hb]]. apply in_map_iff in Hk. destruct Hk as [c [<- Hc]].
+  cbn in Hb. apply andb_true_iff in Hb. destruct Hb as [Hu Hl]. apply negb_true_iff in Hl.
+  apply In_nth_error in Hc. destruct Hc as [i Hi].
+  assert (W : waiters s = []).
+  { apply (no_lost_wakeup_l da s i R); [eapply nth_error_lt; eauto| | |exact P]; rewrite (get_conn_nth _ _ _ Hi); assumption. }
+  apply Nat.eqb_eq. rewrite <- (clause2_at_quiescence da s R Q), W. reflexivity.
 Qed.
